@@ -235,9 +235,16 @@ func (dc *dataChunk) endGCWriting() (err error) {
 		dc.gcWriter.Close()
 		dc.gcWriter = nil
 	}
-	if dc.rewriting && (dc.writingHead < dc.size || dc.writingHead == 0) {
-		dc.Truncate(dc.writingHead)
-		dc.size = dc.writingHead
+	if dc.rewriting {
+		if dc.writingHead < dc.size {
+			// the pass stopped (cancelled, or an error) before it had read this file to its end (dropStaleTail
+			// has not run): what lies beyond the write head is not stale, it is all there is of those records
+			logger.Infof("in-place rewrite of %s not completed, keep %d bytes", dc.path, dc.size)
+			dc.writingHead = dc.size
+		} else if dc.writingHead == 0 {
+			dc.Truncate(0) // nothing survived: remove the empty file
+			dc.size = 0
+		}
 	}
 	dc.rewriting = false
 	return
